@@ -25,7 +25,7 @@ import random
 import struct
 from typing import TYPE_CHECKING, Any, cast
 
-from bumble import hci, link, ll, lmp
+from bumble import core, hci, link, ll, lmp
 from bumble import link as bumble_link
 from bumble.colors import color
 from bumble.core import PhysicalTransport
@@ -1024,7 +1024,14 @@ class Controller:
     ) -> asyncio.Future[int]:
         loop = asyncio.get_running_loop()
         assert self.link
-        self.link.send_lmp_packet(self, receiver_address, packet)
+        try:
+            self.link.send_lmp_packet(self, receiver_address, packet)
+        except core.InvalidArgumentError:
+            # Nobody answers at that address: the procedure ends with a page timeout
+            logger.debug(f'no controller for {receiver_address}')
+            future = loop.create_future()
+            future.set_result(hci.HCI_ErrorCode.PAGE_TIMEOUT_ERROR)
+            return future
         future = self.classic_pending_commands.setdefault(receiver_address, {})[
             packet.opcode
         ] = loop.create_future()
@@ -1188,6 +1195,7 @@ class Controller:
             )
         else:
             connection = None
+            self.classic_connections.pop(peer_address, None)
             self.send_hci_packet(
                 hci.HCI_Connection_Complete_Event(
                     status=status,
